@@ -20,6 +20,11 @@ from . import cpv
 
 def _manifest_line(chf: str, filename: str, chksums) -> str:
     """Convenient, internal method for rendering a manifest entry"""
+    if len(filename.split()) != 1:
+        # entries are whitespace separated; such a line would not parse back
+        raise ValueError(
+            f"{filename!r} can't be recorded in a Manifest: file names can't hold whitespace"
+        )
     chksums = dict(chksums)
     size = chksums.pop("size")
     line = f"{chf.upper()} {filename} {size}"
